@@ -8,17 +8,17 @@ kept = 0
 for d in sorted(glob.glob(root + "/C*/[AB]")):
     prop, var = d.split("/")[-2:]
     sid = f"{prop}-{var}-r6"
-    seed = open(os.path.join(d, "seed.log")).read() if os.path.exists(os.path.join(d, "seed.log")) else ""
+    seed = open(os.path.join(d, "seed.log"), errors="replace").read() if os.path.exists(os.path.join(d, "seed.log")) else ""
     m = re.search(r"build=(\d+) suite=(\d+) demo_with_change=(\S+) demo_without_change=(\S+)", seed)
     if not m or m.group(1) != "0" or m.group(2) != "0" or m.group(3) in ("0", "n/a") or m.group(4) != "0":
         print("not confirmed:", d, m.groups() if m else None)
         continue
     asstood = {}
-    for mm in re.finditer(r"check=(\S+) tier=(\S+) rc=(\d+) violations=(\d+) (\d+)s\s*(.*)", seed):
+    for mm in re.finditer(r"check=(\S+) tier=(\S+) rc=(\d+) violations=(\d+) (\d+)s[ \t]*(.*)", seed):
         asstood[mm.group(1)] = dict(rc=int(mm.group(3)), violations=int(mm.group(4)), seconds=int(mm.group(5)), first=mm.group(6)[:300])
     after = {}
     for f in glob.glob(os.path.join(d, "pass2.log")) + glob.glob(os.path.join(d, "lab_run*.log")):
-        for mm in re.finditer(r"LAB \S+ check=(\S+) rc=(\d+) violations=(\d+) (\d+)s\s*(.*)", open(f).read()):
+        for mm in re.finditer(r"LAB \S+ check=(\S+) rc=(\d+) violations=(\d+) (\d+)s[ \t]*(.*)", open(f, errors="replace").read()):
             after[mm.group(1)] = dict(rc=int(mm.group(2)), violations=int(mm.group(3)), seconds=int(mm.group(4)), first=mm.group(5)[:300])
     meta = json.load(open(os.path.join(d, "meta.json")))
     out = os.path.join("/verif/seeded", sid)
@@ -36,6 +36,7 @@ for d in sorted(glob.glob(root + "/C*/[AB]")):
         "checks_run_after_the_round_6_additions": after,
         "detected_at_the_start_of_round_6_by": det0,
         "detected_by": det1,
+        "notes": [l[6:].strip() for l in seed.splitlines() if l.startswith("NOTE: ")],
     }, open(os.path.join(out, "meta.json"), "w"), indent=1, ensure_ascii=False)
     kept += 1
 print("kept", kept)
